@@ -1,5 +1,6 @@
 import Momo.Proof.RowsXfer
 import Momo.Proof.RowsHist
+import Momo.Proof.RowsHB
 /-!
 # C19 — Detached table rows can be destroyed on any thread while the owner keeps working
 
@@ -240,7 +241,31 @@ theorem C19_walk_progress (n : Nat) (acts : List Act) (s : St) (b : Bool) (g : O
     have hcur : s.cur = none := by rw [hI.curW, hW]; rfl
     exact ⟨{ s with mpc := if b then .needAlloc else .idle }, by simp only [step, hm, hcur]⟩
 
+/-- **C19, no data race (vector-clock formulation).** Run any schedule together with a FastTrack/TSan-style race
+detector (`Momo/Model/RowsHB.lean`): per-thread vector clocks, the atomic operations on `freeRaws` given only
+acquire/release strength (loads and failed CAS acquire; successful CAS and `exchange` are acquire+release RMWs), the
+explicit move of a row object between threads synchronised by the user, and *every* non-atomic access to a block
+(item destruction, link write, link read, pool bookkeeping, row creation/Add/Extract/Remove) treated as a write.
+Then no access ever races: each is ordered by happens-before after the previous access to the same block. -/
+theorem C19_no_data_race (n : Nat) (acts : List Act) (s : St) (h : run (init n) acts = some s) :
+    ∃ hb, runHB (init n) HB.init false acts = some (s, hb, false) := by
+  obtain ⟨hb, racy, hr⟩ := runHB_of_run acts (init n) s HB.init false h
+  have := runHB_no_race acts (init n) HB.init false s hb racy (RInv_init n) (VInv_init n) hr
+  subst this
+  exact ⟨hb, hr⟩
+
 /-! ## Non-vacuity: concrete schedules (evaluated by the kernel) -/
+
+/-- the race detector is not vacuous: after thread 1 has begun `~DataRow` of block 1 (its `DestroyRaw` touched the
+block), an access by thread 1 itself is ordered, an access by the owner thread or by thread 2 would be reported. -/
+example : (runHB (init 3) HB.init false [.newBegin, .grow 1 none, .alloc 1 none, .handoff 1 0 1, .dBegin 1 1]).map
+    (fun x => (x.2.1.ordered 1 1, x.2.1.ordered 0 1, x.2.1.ordered 2 1, x.2.2)) = some (true, false, false, false) := by decide
+
+/-- …and once the block went through CAS and `exchange`, the owner's access is ordered again -/
+example : (runHB (init 3) HB.init false [.newBegin, .grow 1 none, .alloc 1 none, .handoff 1 0 1, .dBegin 1 1, .dLoad 1, .dWrite 1,
+    .dCas 1 false, .takeBegin, .exchange]).map
+    (fun x => (x.2.1.ordered 0 1, x.2.1.ordered 2 1, x.1.W)) = some (true, false, [1]) := by decide
+
 
 /-- ABA: thread 2 stalls between its load (head = block 1) and its CAS; meanwhile the owner takes the list, reclaims
 block 1, re-creates a row in block 1, thread 1 destroys that row and pushes block 1 again. Thread 2's CAS then
